@@ -23,6 +23,7 @@ use std::panic::AssertUnwindSafe;
 use std::path::{Path, PathBuf};
 
 mod sinks;
+#[path = "../../c03/src/htmlbytes.rs"] mod htmlbytes;
 
 const TAG: u64 = 0xC18;
 
@@ -1815,6 +1816,7 @@ pub fn run(rep: &mut Report) {
     report_stream(rep, &mut r3);
     sinks::xmlread_stream(rep, &mut r4);
     sinks::observe_prefix_separator(rep);
+    htmlbytes::run(rep);
     rep.notes.push("the quantifier excludes control characters: the esc/dec streams include them (the routines are total), the report stream does not".into());
 }
 
@@ -1872,6 +1874,7 @@ pub fn replay(rep: &mut Report, case: &Value) {
             }
         }
         "xmlread" => sinks::replay_xmlread(rep, case),
+        o if o.starts_with("c03.htmlb.") => htmlbytes::replay(rep, case),
         _ => rep.notes.push("unknown op in replay case".into()),
     }
 }
